@@ -431,6 +431,62 @@ def run(rep):
             v = v[2][0][2][0]
         for meth, ax in ((".sort_index", None), (".reindex", None)):
             pass
+    # the table is returned without padding only when both its row count and its column count are known to reach ncat
+    def axis_of(e, CM):
+        if pq.call_named(e, "shape") and len(e[2]) == 2 and e[2][1][0] == 'num':
+            b_, k_ = e[2][0], int(e[2][1][1])
+            if b_ == CM:
+                return k_
+            if k_ == 0 and pq.call_named(b_, "attr:index") and b_[2][0] == CM:
+                return 0
+            if k_ == 0 and pq.call_named(b_, "attr:columns") and b_[2][0] == CM:
+                return 1
+            if k_ == 0 and pq.call_named(b_, "attr:values") and pq.call_named(b_[2][0], "attr:index") and b_[2][0][2][0] == CM:
+                return 0
+            if k_ == 0 and pq.call_named(b_, "attr:values") and pq.call_named(b_[2][0], "attr:columns") and b_[2][0][2][0] == CM:
+                return 1
+        if pq.call_named(e, "getitem") and pq.call_named(e[2][0], "attr:shape") and e[2][0][2][0] == CM and e[2][1][0] == 'num':
+            return int(e[2][1][1])
+        return None
+    FLIP = {'<': '>', '>': '<', '<=': '>=', '>=': '<=', '==': '==', '!=': '!='}
+    NEG = {'<': '>=', '>': '<=', '<=': '>', '>=': '<', '==': '!=', '!=': '=='}
+    gate_ok, gate_und, gate_det = True, [], []
+    for p_ in plain:
+        CM = p_.value
+        est = {}
+        other = []
+        for c, t in pq.flat_conds(p_.conds):
+            if c == ('call', 'is', (('sym', 'ncat'), ('sym', 'None'))):
+                continue
+            if c[0] == 'cmp' and pq.call_named(c[2], "attr:shape") and c[2][2][0] == CM and c[3][0] == 'tuple' and len(c[3][1]) == 2:
+                op = c[1] if t else NEG.get(c[1])
+                if op == '==':
+                    est[0], est[1] = c[3][1]
+                    continue
+            if c[0] == 'cmp':
+                ka, kb = axis_of(c[2], CM), axis_of(c[3], CM)
+                if (ka is None) != (kb is None):
+                    k_, n_, op = (ka, c[3], c[1]) if ka is not None else (kb, c[2], FLIP[c[1]])
+                    op = op if t else NEG[op]
+                    if op in ('>=', '=='):
+                        est[k_] = n_
+                    continue          # a recognised test of one axis that does not establish it
+            if pq.mentions(c, lambda x: x == CM):
+                other.append(show(c)[:80])
+        missing = [k_ for k_ in (0, 1) if k_ not in est]
+        if not missing and est[0] == est[1]:
+            continue
+        if other:
+            gate_und.append(f"condition(s) on the table outside the vocabulary: {other[:2]}")
+        else:
+            gate_ok = False
+            gate_det.append("the unpadded table is returned without knowing that its " + " and ".join(("row", "column")[k_] + " count" for k_ in missing) +
+                            " reaches ncat" if missing else "row and column counts are compared with different bounds")
+    if gate_und:
+        rep.undecided("R04.d", rel, "confusion_matrix", "the table is returned unpadded only when it already has ncat rows and ncat columns", gate_und[0], line=cmf.lineno)
+    else:
+        rep.check(gate_ok, "R04.d", rel, "confusion_matrix", "the table is returned unpadded only when it already has ncat rows and ncat columns",
+                  "; ".join(sorted(set(gate_det))), line=cmf.lineno)
     rep.check(addcol and addrow, "R04.d", rel, "confusion_matrix", "padding adds the missing column and the missing row of every category below ncat",
               f"column added: {addcol}, row added: {addrow}", line=cmf.lineno)
     rep.check(rcol and rrow, "R04.d", rel, "confusion_matrix", "padded table re-ordered along both axes (categories ascending)",
